@@ -563,6 +563,7 @@ func initReflect(i *reflectIniter) {
 		"IsVariadic":   newMethod(i.reflectPackage, rtypeType, "IsVariadic"),
 		"Implements":   newMethod(i.reflectPackage, rtypeType, "Implements"),
 		"Method":       newMethod(i.reflectPackage, rtypeType, "Method"),
+		"MethodByName": newMethod(i.reflectPackage, rtypeType, "MethodByName"),
 		"Name":         newMethod(i.reflectPackage, rtypeType, "Name"),
 		"AssignableTo": newMethod(i.reflectPackage, rtypeType, "AssignableTo"),
 	}
